@@ -60,6 +60,9 @@ type Case struct {
 	// execution, also one on an instance that was used before and whose earlier run ended abnormally.
 	PriorInit     *facts.State
 	PriorMaxCycle uint64
+	// PriorSameDC makes the earlier call run on the very data context (and fact objects) of the validated
+	// call, built from Init: the validated call then starts from whatever the earlier call left behind.
+	PriorSameDC bool
 }
 
 // Violation is a broken clause.
@@ -199,6 +202,7 @@ func Run(c *Case, p *Prepared) *Report { return RunOn(c, p, nil) }
 // against a fresh model (nothing retracted, nothing remembered, not complete).
 func RunOn(c *Case, p *Prepared, kb *ast.KnowledgeBase) *Report {
 	rep := &Report{Retracted: map[string]bool{}}
+	priorSame := false
 	lib := p.Lib
 	if c.ViaGRB && p.GRBLib != nil {
 		lib = p.GRBLib
@@ -211,7 +215,7 @@ func RunOn(c *Case, p *Prepared, kb *ast.KnowledgeBase) *Report {
 			rep.Harness = "instance: " + err.Error()
 			return rep
 		}
-		if c.PriorInit != nil {
+		if c.PriorInit != nil && !c.PriorSameDC {
 			pl := c.PriorInit.Copy()
 			for _, f := range pl.Go {
 				if f != nil {
@@ -222,6 +226,9 @@ func RunOn(c *Case, p *Prepared, kb *ast.KnowledgeBase) *Report {
 				pres := obs.Execute(kb, pdc, obs.RunOpts{MaxCycle: c.PriorMaxCycle})
 				rep.PriorErr = pres.Err
 			}
+		}
+		if c.PriorSameDC && c.ReuseDC == nil {
+			priorSame = true
 		}
 	}
 	var live *facts.State
@@ -246,6 +253,29 @@ func RunOn(c *Case, p *Prepared, kb *ast.KnowledgeBase) *Report {
 		}
 	}
 	rep.Live, rep.DC = live, dc
+	if priorSame {
+		// the earlier call on the same data context (neutral probes)
+		probe.Oracle = true
+		pres := obs.Execute(kb, dc, obs.RunOpts{MaxCycle: c.PriorMaxCycle})
+		probe.Oracle = false
+		rep.PriorErr = pres.Err
+		if dc.IsComplete() {
+			// a completed data context stays complete for good: the validated call gets a new one
+			live = c.Init.Copy()
+			for _, f := range live.Go {
+				if f != nil {
+					f.SetProbe(probe)
+				}
+			}
+			ndc, nerr := obs.NewDataContext(live)
+			if nerr != nil {
+				rep.Harness = "data context: " + nerr.Error()
+				return rep
+			}
+			dc = ndc
+			rep.Live, rep.DC = live, dc
+		}
+	}
 	nl := c.Listeners
 	if nl < 1 {
 		nl = 1
